@@ -161,6 +161,26 @@ def tan(a):
     return div(sin(a), cos(a))
 
 
+def atan(a):
+    return fn("atan", a)
+
+
+def asin(a):
+    return fn("asin", a)
+
+
+def acos(a):
+    return fn("acos", a)
+
+
+def log(a):
+    return fn("log", a)
+
+
+def absv(a):
+    return fn("abs", a)
+
+
 # ----------------------------------------------------------------------------- differentiation
 
 
@@ -200,6 +220,14 @@ def diff(e: E, x: str) -> E:
             return mul(exp(a), da)
         if name == "sqrt":
             return div(da, mul(C(2), sqrt(a)))
+        if name == "atan":
+            return div(da, add(C(1), mul(a, a)))
+        if name == "asin":
+            return div(da, sqrt(add(C(1), neg(mul(a, a)))))
+        if name == "acos":
+            return neg(div(da, sqrt(add(C(1), neg(mul(a, a))))))
+        if name == "log":
+            return div(da, a)
         raise NotImplementedError(name)
     raise NotImplementedError(op)
 
@@ -231,7 +259,8 @@ def to_sympy(e: E, symtab):
     if op == "pow":
         return to_sympy(e.args[0], symtab) ** e.args[1]
     if op == "fn":
-        return getattr(sympy, e.args[0])(to_sympy(e.args[1], symtab))
+        nm = {"abs": "Abs"}.get(e.args[0], e.args[0])
+        return getattr(sympy, nm)(to_sympy(e.args[1], symtab))
     raise NotImplementedError(op)
 
 
@@ -266,8 +295,14 @@ def to_z3(e: E, env, denoms=None, domain=None):
         return r
     if op == "fn":
         a = to_z3(e.args[1], env, denoms, domain)
+        if e.args[0] == "abs":
+            return z3.If(a >= 0, a, -a)
         if e.args[0] == "sqrt" and domain is not None:
             domain.append(a >= 0)
+        if e.args[0] == "log" and domain is not None:
+            domain.append(a > 0)
+        if e.args[0] in ("asin", "acos") and domain is not None:
+            domain.append(z3.And(a >= -1, a <= 1))
         return uf(e.args[0])(a)
     raise NotImplementedError(op)
 
@@ -289,6 +324,8 @@ def evalf(e: E, env):
     if op == "pow":
         return evalf(e.args[0], env) ** e.args[1]
     if op == "fn":
+        if e.args[0] == "abs":
+            return abs(evalf(e.args[1], env))
         return getattr(math, e.args[0])(evalf(e.args[1], env))
     raise NotImplementedError(op)
 
